@@ -29,7 +29,8 @@ theorem fact_create_conflict_is_final : Generated.Ipam.createReturnsCreateError 
 
 /-- tie to the code: what `ConfigurePool` takes for "the stored objects" (`listFloatingIPs`) is a LIST against the API
     server, not an informer cache (which lags galaxy-ipam's own writes) — `configurePool` reads `s.store`. -/
-theorem fact_reload_lists_store : Generated.Ipam.reloadListsApiserver = true := by decide
+theorem fact_reload_lists_store :
+    Generated.Ipam.reloadListsApiserver = true ∧ Generated.Ipam.reloadListIsConsistentRead = true := by decide
 
 /-- "An IP that an administrator reserved with a labelled FloatingIP object … is never handed to a pod": in ANY state,
     an address with a stored object — labelled or not, its watch event delivered or not — is returned by no
@@ -41,6 +42,14 @@ theorem reserved_never_allocated (s : State) (op : Op) (hal : op.isAlloc = true)
   have := (alloc_returns_free_unstored op hal hadm hok ip hin).1
   rw [hst] at this
   cases this
+
+/-- … and a FAILED allocation move (not enough addresses, a store conflict with the reservation itself, an injected fault
+    anywhere incl. the rollback) never deletes or changes a store object which existed before — in particular not the
+    reservation its create collided with, so the scheduler's retry of the same request meets it again. -/
+theorem failed_allocation_keeps_stored_objects (s : State) (op : Op) (hal : op.isAlloc = true) (e : Err)
+    (he : (op.run s).2.err = some e) (hec : e ≠ .crashed) (ip : IP) (r : Rec) (hst : s.store.get ip = some r) :
+    (op.run s).1.store.get ip = some r :=
+  alloc_failure_keeps_store op hal he hec ip r hst
 
 /-- the memory-side reason after delivery: once `handleFIPAssign` accepted the event the address is allocated to the
     reservation's key with the `reserved` label and no longer free -/
